@@ -68,6 +68,9 @@ def key(op, impl, M, S):
     head = "%s:%s:%s->%s" % (p["mode"], p["helper"], _cls(p["kind"]), _tcls(p["tgt"]))
     if _cls(p["kind"]) == "complex" and p["tgt"] in ("f32", "f64") and not impl.startswith("panic") and not impl.endswith(" c0"):
         return "complex-magnitude:" + head      # ToFloat64(complex) is |z| by design: one known class
+    if p["kind"] == "str" and p["tgt"] == "big" and impl.startswith("ok") and not impl.endswith(" c0"):
+        raw = (b"" if p["src"][1] == "-" else bytes.fromhex(p["src"][1])).strip().lower()
+        if raw[:3] in (b"0x+", b"0x-"): return "sign-after-0x-prefix:" + head   # "0x+1F": one known class
     if impl.startswith("panic"): return head + ":panic"
     if impl.endswith(" c0"): return head + ":schema-differs-from-plain-on-coerced-value"
     if impl.startswith("ok") and S is not None and S.startswith("err"):
